@@ -218,6 +218,17 @@ func derivesFromLoop(fn *Func, e ast.Expr, loopVars map[types.Object]bool, loopB
 				return true // defined before the loop: a loop-invariant container
 			}
 			if depth > 0 {
+				// the binding of a type switch stands for the switch's operand
+				if x := typeSwitchOperandOf(fn, o); x != nil {
+					ok2, w := derivesFromLoop(fn, x, loopVars, loopBody, pureOnly, depth-1)
+					if ok2 {
+						sawLoop = true
+						return true
+					}
+					okAll = false
+					why = n.Name + ": " + w
+					return false
+				}
 				if as := fn.Assignments(o); len(as) == 1 {
 					if s, ok := as[0].(*ast.AssignStmt); ok && len(s.Rhs) == 1 && len(s.Lhs) == 2 {
 						if ix, ok := ast.Unparen(s.Rhs[0]).(*ast.IndexExpr); ok {
@@ -988,4 +999,30 @@ func buildCallersCached(p *Prog) map[*types.Func][]callSite {
 	m := buildCallers(p)
 	callersCache[p] = m
 	return m
+}
+
+// typeSwitchOperandOf: for the variable bound by `switch v := x.(type)`, the operand x.
+func typeSwitchOperandOf(fn *Func, o types.Object) ast.Expr {
+	if o == nil {
+		return nil
+	}
+	info := fn.Info()
+	var res ast.Expr
+	ast.Inspect(rootFunc(fn).Body, func(n ast.Node) bool {
+		if res != nil {
+			return false
+		}
+		sw, ok := n.(*ast.TypeSwitchStmt)
+		if !ok || o.Pos() < sw.Pos() || o.Pos() > sw.End() {
+			return true
+		}
+		for _, c := range sw.Body.List {
+			if info.Implicits[c] == o {
+				res = typeSwitchOperand(sw)
+				return false
+			}
+		}
+		return true
+	})
+	return res
 }
